@@ -295,10 +295,15 @@ pub mod arbitrary_precision {
         D: serde::de::Deserializer<'de>,
     {
         let n = BigDecimal::deserialize(deserializer)?;
+        check_scale_limit(n)
+    }
 
-        if n.scale.abs() > SERDE_SCALE_LIMIT && SERDE_SCALE_LIMIT > 0 {
-            let msg = format!("Calculated exponent '{}' out of bounds", -n.scale);
-            Err(serde::de::Error::custom(msg))
+    /// Return error if the scale of the decimal is outside the configured limit
+    pub(crate) fn check_scale_limit<E: serde::de::Error>(n: BigDecimal) -> Result<BigDecimal, E> {
+        // (compare both bounds rather than abs(), which overflows for i64::MIN)
+        if SERDE_SCALE_LIMIT > 0 && (n.scale > SERDE_SCALE_LIMIT || n.scale < -SERDE_SCALE_LIMIT) {
+            let msg = format!("Calculated exponent '{}' out of bounds", -(n.scale as i128));
+            Err(E::custom(msg))
         } else {
             Ok(n)
         }
@@ -352,7 +357,12 @@ pub mod arbitrary_precision_option {
         D: serde::de::Deserializer<'de>,
     {
         Option::<serde_json::Number>::deserialize(deserializer)?
-                                     .map(|num| num.as_str().parse().map_err(serde::de::Error::custom))
+                                     .map(|num| {
+                                         num.as_str()
+                                            .parse()
+                                            .map_err(serde::de::Error::custom)
+                                            .and_then(arbitrary_precision::check_scale_limit)
+                                     })
                                      .transpose()
     }
 
